@@ -355,7 +355,7 @@ func (e *engine) deliver(w *Wire, to int) {
 			e.failf("%s: node holds ring[%s] pring[%s], expected the last-writer-wins join ring[%s] pring[%s]", what, model.CanonDescN(aR), model.CanonPDescN(aP), model.CanonDescN(wantR), model.CanonPDescN(wantP))
 			return
 		}
-	} else {
+	} else if e.o.ShortRetention {
 		// short retention: a tombstone older than the retention must not be stored
 		now := time.Now()
 		for ent, ts := range tombstonesOf(aR, aP) {
